@@ -25,7 +25,7 @@ from corr import c09
 from gen import g4
 
 KINDS = ["many_atoms", "edge_atoms", "many_chains", "edge_chains", "many_residues", "edge_residues", "big_serial",
-         "big_numbers", "interleaved"]
+         "big_numbers", "interleaved", "spread_residues"]
 _BIG = {}
 
 
